@@ -144,6 +144,9 @@ class apply_prop_filter_c:
     def ensures(el, ab, result):
         return result == spec_prop_filter(el, ab)
 
+    def value(el, ab):
+        return spec_prop_filter(el, ab)
+
     def inv_0(el, ab, prop, _i, _seq):
         return not any(instance_matches(el, p) for p in _seq[:_i])
 
@@ -165,3 +168,40 @@ def well_formed_sub(subel):
                             for s2 in subel)))
             or (subel.tag != "{urn:ietf:params:xml:ns:carddav}text-match"
                 and subel.tag != "{urn:ietf:params:xml:ns:carddav}param-filter"))
+
+
+ghost("card_of", ["opaque:Resource"], "opt[dict[str,list[opaque:ContentLine]]]")
+
+
+@contract("xandikos.carddav.addressbook_from_resource", params={"resource": "opaque:Resource"},
+          returns="opt[dict[str,list[opaque:ContentLine]]]")
+class addressbook_from_resource_c:
+    """The parsed vCard of an address object resource; None for anything else (collections,
+    calendar objects).  Not verified here (vobject parsing); card_of names the result."""
+
+    def ensures(resource, result):
+        return result == card_of(resource)
+
+
+def spec_filter(el, ab):
+    test = xml_attr(el, "test") if xml_attr(el, "test") is not None else "anyof"
+    return (all(spec_prop_filter(subel, ab) for subel in el) if test == "allof"
+            else any(spec_prop_filter(subel, ab) for subel in el))
+
+
+@contract("xandikos.carddav.apply_filter", params={"el": "opt[opaque:Element]", "resource": "opaque:Resource"},
+          returns="bool", may_raise=["KeyError", "NotImplementedError"])
+class apply_filter_c:
+    """RFC 6352 10.5: only address object resources can match; no / an empty filter matches
+    every one of them; otherwise anyof (default) / allof over the prop-filters."""
+
+    def requires(el):
+        return implies(el is not None,
+                       (xml_attr(el, "test") is None or xml_attr(el, "test") == "anyof" or xml_attr(el, "test") == "allof")
+                       and all(xml_attr(subel, "name") is not None
+                               and (only_is_not_defined(subel) or all(well_formed_sub(s2) for s2 in subel))
+                               for subel in el))
+
+    def ensures(el, resource, result):
+        ab = card_of(resource)
+        return bool(result) == (ab is not None and (el is None or len(el) == 0 or spec_filter(el, ab)))
